@@ -46,6 +46,18 @@ check("C08", "proof",
       "timestamps, durations, bytes ordering and nesting are a bounded stand-in on boundary values; element-equality "
       "abstraction assumes same-typed elements (the property's precondition).",
       "contract-based deductive verification: symbolic execution + z3 lemmas + inductive fold invariant", "DESIGN.md 4/C08")
+check("C19", "proof",
+      "Finite tables extracted from the source are decided exhaustively: every atomic_op_map entry parses and, through the "
+      "real type_value_rewrite, decides like the relation its op names on resources on both sides of each boundary "
+      "(oracle: the relation applied directly); every (rewriter, resource type) table entry found in the AST is pushed "
+      "through its real rewriter and the emitted text parsed with the library's parser; value_type transforms, boolean "
+      "literals, dotted / tag: / length() keys are checked the same way. Quoting (q -> CEL literal -> evaluate) and the "
+      "duration literals are bounded stand-ins (adversarial alphabet up to length 3-4; second counts sweep).",
+      "Exhaustive over the tables as they are in the working tree; operand values are representatives on both sides of each "
+      "boundary; quoting and durations are bounded (labelled); five recorded known findings (glacier entry, "
+      "present/absent on a missing key).",
+      "exhaustive finite-table obligations decided by the library's own parser/evaluator + bounded stand-ins "
+      "(contract-based deduction is not applicable to the replace_all/regex decode chain: see DESIGN.md)", "DESIGN.md 4/C19")
 _pending = "contracts for this property are not built yet in this revision (work in progress, see DESIGN.md section 8 build order)"
-for _p in ["C03","C04","C05","C06","C07","C09","C10","C11","C12","C14","C15","C16","C17","C19","C20"]:
+for _p in ["C03","C04","C05","C06","C07","C09","C10","C11","C12","C14","C15","C16","C17","C20"]:
     NA[_p] = _pending
